@@ -387,6 +387,8 @@ where
             XRef::Invalid => panic!()
         };
         let primitive = obj.to_primitive(self)?;
+        // typed loads of this reference must not be answered with the old value
+        self.cache.clear();
         match self.changes.entry(old.id) {
             Entry::Vacant(e) => {
                 e.insert((primitive, r.gen));
